@@ -63,7 +63,7 @@ CHECKS = {
                   'variants, call-site preconditions), z3; bounded run-time monitors as labelled stand-in'),
     'C02': dict(
         category='proof',
-        text="Conservation is proved through the whole count() of wigm (fixed-point and exact instances), wigm-prf, wigm-prf-batch, cfer, cfer-batch and scotland with a "
+        text="Conservation is proved through the whole count() of wigm (fixed-point and exact instances), wigm-prf, wigm-prf-batch, cfer, cfer-batch, scotland and mpls with a "
              "ghost vote ledger maintained at every store to a tally, the non-transferable total, a ballot's weight or position: after "
              "the first tally the tallies add up to the ballots cast; at every recorded step (every logAction / newRound / elect / "
              "defeat / unpend call site) tallies + non-transferable total <= ballots cast (== under exact arithmetic); no tally and "
@@ -71,13 +71,13 @@ CHECKS = {
              "leaving the excluded candidate's pile / at most value x surplus / tally for a surplus). Step contracts: transfer() of "
              "wigm, wigm-prf, cfer, scotland, Ballot.advance, Ballot.vote. Meek / Warren: distributeVotes() leaves tallies + residual "
              "== ballots exactly (strict rankings). Batch exclusions (sure losers, 10059(k)) are covered through the sum of the piles over the "
-             "batch. The composed rounding-loss lower bound, mpls, meek-prf, qpq and equal rankings: bounded stand-in.",
+             "batch. The composed rounding-loss lower bound, meek-prf, qpq and equal rankings: bounded stand-in.",
         design_ref='DESIGN 6/C02, 11.L',
         note=COMMON_NOTE + "Model assumptions of the ledger (DESIGN 11.L): G[c] is the sum of the values of the ballots standing with c "
              "(closing fact of the partial sums; empty-sum and zero-sum lemmas), sum of multipliers == nBallots (C15 post-parse "
              "invariant), candidate ids distinct. The lower bound (value lost only through the prescribed rounding) is proved per "
              "ballot (site obligation) and composed by the bounded monitor only. Sum over a batch: uninterpreted sum with its update law; all-zero "
-             "and pointwise-equal lemmas used assert-then-assume. mpls, meek-prf, qpq, equal rankings: bounded monitor only (labelled bounded; never counted as proved). meek-prf's "
+             "and pointwise-equal lemmas used assert-then-assume. meek-prf, qpq, equal rankings: bounded monitor only (labelled bounded; never counted as proved). meek-prf's "
              "post-exclusion snapshots are outside the monitor (DESIGN 6.0 item 3).",
         technique='contract-based deductive verification of the real count() bodies with a ghost vote ledger (loop invariants of the '
                   'ballot sweeps, call-site obligations at every recorded step), transfer closures and Meek distribution under contract; '
@@ -98,15 +98,15 @@ CHECKS = {
              "hopeful (loop invariant + variant), exactly its value is credited and the value it carries moves with it (ghost pile "
              "G). Inside the verified count() bodies of wigm, wigm-prf, scotland, mpls: at every store to a ballot's weight the "
              "new value is in [0, old], new x tally <= old x surplus (rounded down, never up) and short of it by less than one unit per "
-             "truncation (exactly equal under exact arithmetic). Main-loop invariants of wigm, wigm-prf(-batch), cfer(-batch), scotland: every continuing "
+             "truncation (exactly equal under exact arithmetic). Main-loop invariants of wigm, wigm-prf(-batch), cfer(-batch), scotland, mpls: every continuing "
              "candidate's tally equals the value of the ballots standing with that candidate (W6, ghost piles), a candidate whose "
              "surplus was transferred holds exactly the quota, an excluded candidate holds nothing; surplus and exclusion sweeps leave "
              "every other candidate's tally-minus-pile unchanged and end with no ballot standing with the swept candidate.",
         design_ref='DESIGN 6/C06, 11.L',
         note=COMMON_NOTE + "W6 (tally == value of the ballots standing with the candidate) rests on the ledger model assumptions of DESIGN "
-             "11.L; for mpls it is checked at every recorded action by the bounded monitor only (labelled).",
+             "11.L; the bounded monitor re-checks it at every recorded action of every rule (labelled).",
         technique='contract-based deductive verification of transfer()/Ballot methods and of the count() bodies (ghost piles per '
-                  'candidate, sweep invariants); bounded tally monitor as stand-in for mpls'),
+                  'candidate, sweep invariants); bounded tally monitor as cross-check'),
     'C07': dict(
         category='proof',
         text="breakTie of wigm, wigm-prf, meek, mpls, qpq: result is a tied candidate, a single candidate is returned silently, "
